@@ -50,6 +50,10 @@ pub struct World {
     pub strings: Vec<String>,
     /// non-fungible ids known per resource (held, transferred, burned)
     pub known_ids: BTreeMap<ResourceAddress, Vec<NonFungibleLocalId>>,
+    /// blobs of successful set-up manifests (e.g. the code of the published package), by hash
+    pub blobs: BTreeMap<[u8; 32], Vec<u8>>,
+    /// native / wasm exports that ran during set-up (cost breakdown keys)
+    pub setup_exports: BTreeSet<String>,
     pub setup_failures: Vec<String>,
     pub setup_transactions: u64,
 }
@@ -70,6 +74,7 @@ impl World {
     /// Execute a set-up manifest; on success remember the arguments of its calls as seeds.
     fn run(&mut self, shard: &mut Shard, label: &str, m: TransactionManifestV1, proofs: Vec<NonFungibleGlobalId>) -> Option<TransactionReceipt> {
         let instructions = m.instructions.clone();
+        let blobs = m.blobs.clone();
         let desc = format!("set-up: {label}");
         let r = self.ledger.exec(shard, &format!("setup:{label}"), m, proofs, desc);
         self.setup_transactions += 1;
@@ -77,10 +82,20 @@ impl World {
             self.setup_failures.push(format!("{label}: no receipt"));
             return None;
         };
+        if let Some(f) = &receipt.fee_details {
+            for k in f.execution_cost_breakdown.keys() {
+                if let Some(e) = k.strip_prefix("RunNativeCode::").or_else(|| k.strip_prefix("RunWasmCode::")) {
+                    self.setup_exports.insert(e.to_string());
+                }
+            }
+        }
         if !receipt.is_commit_success() {
             let e = format!("{label}: {}", rv_ledger::outcome_class(&receipt));
             self.setup_failures.push(e);
             return None;
+        }
+        for (h, b) in blobs {
+            self.blobs.insert(h.0, b);
         }
         for i in &instructions {
             let (key, args) = match i {
@@ -155,6 +170,8 @@ impl World {
             seeds: BTreeMap::new(),
             strings: vec![],
             known_ids: BTreeMap::new(),
+            blobs: BTreeMap::new(),
+            setup_exports: BTreeSet::new(),
             setup_failures: vec![],
             setup_transactions: 0,
         };
